@@ -95,6 +95,12 @@ def explore(ctx, factor, bs):
             # uniqueness oracle is still evaluated on the implementation's output
             form = formcommon.add_extras(rng, form)
             ctx.count("extras")
+        if rng.random() < 0.2:
+            # sibling name clashes at any depth: must be rejected, never converted to ambiguous paths
+            clash = formcommon.inject_clash(rng, form)
+            if clash is not None:
+                form = clash
+                ctx.count("name_clash")
         form_case(ctx, form)
 
 
